@@ -588,6 +588,11 @@ class Engine:
             return VSeq(self.fresh(base, specs.CSeq))
         if ty == 'mclist':
             return VMList(self.fresh(base, specs.CSeq))
+        if ty == 'pairlist':
+            n = self.fresh(base + '_len')
+            self.pc.append(n >= 0)
+            I = z3.IntSort()
+            return VPairs(n, self.fresh(base + '_first', z3.ArraySort(I, I)), self.fresh(base + '_second', z3.ArraySort(I, I)))
         if ty == 'sink':
             return VSink(self.fresh(base + '_trace', specs.CSeq))
         if ty == 'fn:gad':
